@@ -103,6 +103,12 @@ def run_job(job):
             opts = dict(opts, skip=[cands[opts["skip_nonsup"] % len(cands)]])
         if opts.get("skip"):
             kw["skip"] = list(opts["skip"])
+        if opts.get("consume_nonsup") is not None:
+            # one non-supervisor node returns "consumed" inputs from its step function: execution is unchanged (the compiled runtime rebuilds every
+            # window from the rings), and its record still holds the inputs each step was CALLED with (seeded change C13-h recorded the returned ones)
+            cands = [n["name"] for n in cfg["nodes"] if n["name"] != cfg["sup"] and any(c["in"] == n["name"] for c in cfg["conns"])]
+            if cands:
+                nodes[cands[opts["consume_nonsup"] % len(cands)]].consume_inputs = True
         try:
             G = Graph(nodes=dict(nodes), supervisor=nodes[cfg["sup"]], graphs_raw=g_raw, supergraph=compiled.MODES[mode], prune=prune,
                       progress_bar=False, **kw)
@@ -333,8 +339,10 @@ def buffer_job(job):
     mins = {k: int(max(v) if len(v) > 0 else 1) for k, v in G0.timings.get_buffer_sizes().items()}
     big = [k for k, v in mins.items() if v > 1]
     variants = [({k: v + d for k, v in mins.items()}, True) for d in (0, 1, 2)]
-    if big:
-        variants.append(({big[0]: mins[big[0]] - 1}, False))
+    # one below the largest requirement of ANY producer (as a plain int, the documented form) must be refused - also when another, less demanding
+    # reader of that producer would be satisfied (seeded change C08-h compared the size with the first reader's requirement only)
+    for k in big[:4]:
+        variants.append(({k: mins[k] - 1}, False))
     for vi, (sizes, admissible) in enumerate(variants):
         nodes = gen.build_nodes(cfg, log=True)
         try:
